@@ -654,7 +654,7 @@ class NotationData(Signature):
             self.value = self._decode_text(val)
 
         else:  # pragma: no cover
-            self._value = val
+            self._value = bytearray(val)
 
     def __init__(self):
         super(NotationData, self).__init__()
